@@ -468,14 +468,18 @@ theorem removeExchange_SrvStep {s : MsgLayer.State} (hs : SInv s) (remote : Remo
 
 theorem processRequest_SrvStep {s : MsgLayer.State} (hs : SInv s) (remote : Remote) (w : Wire) :
     SrvStep s (processRequest s remote w).1 (processRequest s remote w).2 := by
+  have q := fireEmptyAck_Quiet s remote w.token
+  have hs0 : SInv (fireEmptyAck s remote w.token).1 := SInv_congr hs q.inc q.nxt
   unfold processRequest
   dsimp only
+  generalize fireEmptyAck s remote w.token = r0 at q hs0
   split
-  · exact (tokenProcessRequest_SrvStep
-      (s := { s with piggy := s.piggy.filter (fun p => !(p.remote == remote && p.token == w.token)) ++
-                [{ remote, token := w.token, mid := w.mid, fireAt := s.now + s.cfg.emptyAckDelay }] })
-      (SInv_congr hs rfl rfl) remote w).congrLeft rfl rfl
-  · exact tokenProcessRequest_SrvStep hs remote w
+  · have h := (tokenProcessRequest_SrvStep
+      (s := { r0.1 with piggy := r0.1.piggy ++
+                [{ remote, token := w.token, mid := w.mid, fireAt := r0.1.now + r0.1.cfg.emptyAckDelay }] })
+      (SInv_congr hs0 rfl rfl) remote w).congrLeft (s0 := r0.1) rfl rfl
+    exact SrvStep.pre q h
+  · exact SrvStep.pre q (tokenProcessRequest_SrvStep hs0 remote w)
 
 theorem recvCode_SrvStep {s : MsgLayer.State} (hs : SInv s) (remote : Remote) (mcLocal : Bool) (w : Wire) :
     SrvStep s (recvCode s remote mcLocal w).1 (recvCode s remote mcLocal w).2 := by
@@ -524,14 +528,17 @@ theorem recv_SrvStep {s : MsgLayer.State} (hs : SInv s) (remote : Remote) (mcLoc
   split
   · exact SrvStep_quiet hs (recvDup_Quiet s remote w)
   · dsimp only
-    generalize hs0 : (if isRequest w.code = true then
+    generalize hs0 : (if dedupable w = true then
         { s with recent := s.recent ++ [{ remote, mid := w.mid, reply := none,
                                           expiry := s.now + s.cfg.exchangeLifetime }] } else s) = s0
     have hi0 : s0.incoming = s.incoming := by subst hs0; split <;> rfl
     have hn0 : s0.nextSrv = s.nextSrv := by subst hs0; split <;> rfl
     have hs0' : SInv s0 := SInv_congr hs hi0 hn0
     split
-    · rename_i hw
+    · rename_i hw'
+      have hw : (w.mtype == .ack || w.mtype == .rst) = true := by
+        unfold fitsReply at hw'
+        cases hm : w.mtype <;> simp [hm] at hw' ⊢
       have h1 := removeExchange_SrvStep hs0' remote w
       exact (h1.post (recvCode_Quiet (s := (removeExchange s0 remote w).1) remote mcLocal w hw)).congrLeft
         hi0.symm hn0.symm
